@@ -10,10 +10,11 @@ ID = "C01"
 LEAN_MODEL_TARGETS = ["drv_c01"]
 LEAN_PROOF_TARGETS = ["PyroProps.C01"]
 AUDIT_FILES = ["PyroModel/Bytes.lean", "PyroModel/Values.lean", "PyroModel/Gen/C01.lean", "PyroModel/Wire.lean",
-               "PyroProofs/Values.lean", "PyroProofs/ValuesNF.lean", "PyroProps/C01.lean", "PyroProps/C06.lean"]
-THEOREMS = ["Pyro.C01.C01_lossless", "Pyro.C01.C01_symmetric", "Pyro.C01.C01_idempotent",
-            "Pyro.C01.C01_fixed_point", "Pyro.C01.C01_compression_transparent", "Pyro.C01.C01_gen_facts",
-            "Pyro.C01.C01_symmetric_needs_ext_hook", "Pyro.C01.C01_batch_needs_kwargs_guard"]
+               "PyroProofs/Values.lean", "PyroProofs/ValuesNF.lean", "PyroProofs/ValuesPaths.lean", "PyroProofs/Wire.lean",
+               "PyroProofs/WireStages.lean", "PyroProps/C01.lean", "PyroProps/C06.lean"]
+THEOREMS = ["Pyro.C01.C01_lossless", "Pyro.C01.C01_symmetric", "Pyro.C01.C01_delivers_normal_form", "Pyro.C01.C01_idempotent",
+            "Pyro.C01.C01_fixed_point", "Pyro.C01.C01_batch_kwargs_none", "Pyro.C01.C01_compression_transparent",
+            "Pyro.C01.C01_gen_facts", "Pyro.C01.C01_symmetric_needs_ext_hook", "Pyro.C01.C01_batch_needs_kwargs_guard"]
 SUITES = ["res", "call", "lib", "spec", "e2e"]
 RULE = ("values generated recursively (depth <= 6) from the property's domain: None/bool, ints at every 32/53/63/64-bit boundary and up "
         "to 2^2000, all float classes (signed zero, subnormal, max, inf, nan), text incl. NUL / astral / reserved-key near misses, "
@@ -56,8 +57,9 @@ def err_kind(x):
     return "other:" + type(x).__name__
 
 
-def outcome(fn):
-    """('ok', normalised tree) | ('err', kind)"""
+def outcome(fn, loose=False):
+    """('ok', normalised tree) | ('err', kind); loose: the sign of a zero inside a complex is not compared
+    (serpent re-evaluates "(-0.0+1j)" with float arithmetic; Python's == does not see the difference)"""
     try:
         r = fn()
     except RecursionError:
@@ -65,7 +67,7 @@ def outcome(fn):
     except Exception as x:
         return ("err", err_kind(x)), None
     try:
-        return ("ok", V.norm(V.tree(r))), r
+        return ("ok", V.norm(V.tree(r), loose)), r
     except V.Unsupported as u:
         return ("ok", ("?", str(u))), r
 
